@@ -145,6 +145,9 @@ func c15Step(x *engine.Exec) []engine.Failure {
 		ref.onEndBlock(prev.Time)
 		if len(ref.Red) < before {
 			x.Cnt.Inc("endblock.matured_redelegation")
+			if len(prev.Denoms) == 0 {
+				x.Cnt.Inc("endblock.matured_redelegation_without_any_asset")
+			}
 		}
 		if atBoundary > 0 {
 			x.Cnt.Inc("endblock.entry_exactly_at_completion_instant")
@@ -247,10 +250,42 @@ func init() {
 				sc.Required = []string{"redelegate.ok", "redelegate.attempt_out_of_pending_destination", "redelegate.source_not_bonded", "endblock.matured_redelegation"}
 				return sc
 			}
-			if tier == "thorough" {
-				return []*engine.Scenario{mk("c15-redelegation", []int{4, 0, 0, 4, 0}, 8), mkSlashed([]int{5, 2, 0, 3, 0}, 9), left([]int{3, 0, 2, 5, 0}, 9)}
+			// the only alliance asset is emptied and deleted by governance while a redelegation of it is pending (and possibly
+			// whitelisted again later): the entry still matures on schedule and the hop restriction is lifted on schedule
+			deleted := func(budgets []int, depth int) *engine.Scenario {
+				sc := mk("c15-last-asset-deleted", budgets, depth)
+				cfg := world.DefaultConfig()
+				cfg.Assets = []world.AssetCfg{{Denom: "aaa", Weight: "1", Min: "0", Max: "5", TakeRate: "0"}}
+				cfg.ExtraDenoms = []string{"aaa"}
+				sc.Cfg = cfg
+				sc.Seeds = [][]world.Op{{opDel(0, 0, "aaa", "1000"), opRed(0, 0, 1, "aaa", "400")}}
+				sc.Ops = func(n *engine.Node) []world.Op {
+					var ops []world.Op
+					s := n.Snap()
+					for _, p := range s.Pos {
+						ops = append(ops, world.Op{K: world.KUndelegateAll, D: p.D, V: p.V, Denom: "aaa", Class: ClsUser})
+					}
+					if a, ok := s.Assets["aaa"]; ok && a.TotalTokens.IsZero() {
+						ops = append(ops, world.Op{K: world.KGovDelete, Denom: "aaa", Class: ClsGov, Args: map[string]string{"signer": "authority"}})
+					}
+					if _, ok := s.Assets["aaa"]; !ok {
+						ops = append(ops, world.Op{K: world.KGovCreate, Denom: "aaa", Class: ClsGov, Args: govArgs("authority", "1", "0,5", "0", "1", 0, false)})
+					} else {
+						ops = append(ops, world.Op{K: world.KDelegate, D: 0, V: 1, Denom: "aaa", Amt: "50", Class: ClsUser})
+						ops = append(ops, world.Op{K: world.KRedelegate, D: 0, V: 1, V2: 2, Denom: "aaa", Amt: "20", Class: ClsUser})
+					}
+					for _, dt := range dts(1, 3) {
+						ops = append(ops, world.Op{K: world.KBlock, Dt: int64(dt), Class: ClsBlock})
+					}
+					return ops
+				}
+				sc.Required = []string{"redelegate.attempt_out_of_pending_destination", "endblock.matured_redelegation", "endblock.matured_redelegation_without_any_asset"}
+				return sc
 			}
-			return []*engine.Scenario{mk("c15-redelegation", []int{3, 0, 0, 3, 0}, 5), mkSlashed([]int{4, 1, 0, 2, 0}, 6), left([]int{2, 0, 2, 4, 0}, 7)}
+			if tier == "thorough" {
+				return []*engine.Scenario{mk("c15-redelegation", []int{4, 0, 0, 4, 0}, 8), mkSlashed([]int{5, 2, 0, 3, 0}, 9), left([]int{3, 0, 2, 5, 0}, 9), deleted([]int{4, 0, 0, 4, 2}, 9)}
+			}
+			return []*engine.Scenario{mk("c15-redelegation", []int{3, 0, 0, 3, 0}, 5), mkSlashed([]int{4, 1, 0, 2, 0}, 6), left([]int{2, 0, 2, 4, 0}, 7), deleted([]int{4, 0, 0, 3, 2}, 8)}
 		},
 		Assumptions: []string{
 			"seed: D0 on V0,V1,V2 (aaa) and V0 (bbb), D1 on V0; unbonding period 3u; block steps 1u/2u/3u/7u; no reward inflow, so a redelegation's implicit claims pay nothing",
